@@ -4,18 +4,28 @@
    history of public operations.  Every operation is defined by CALLING the model of the area
    that owns it (AddSub, Div, Bits, Bytes, Serde, Sign) with the parameters extracted from the
    source; nothing is re-modelled here.  What is modelled here, from src/biguint.rs and
+   (since the merge of mul / pgr / radix also Mul, Pow, Gcd, Roots, RadixApi)
    src/bigint.rs (top of file): `biguint_from_vec`, `Clone::clone_from`, `PartialEq::eq`,
    `Ord::cmp` / `max` / `min` / sort, `Hash::hash` (the word stream fed to the hasher).
    Definitions only.  Internal sites 1400, 1410-1429. *)
-From BigNum Require Import Base AddSub ShiftCore Div Bits BitDigits Iter Bytes Serde Sign.
+From BigNum Require Import Base AddSub ShiftCore Div Bits BitDigits Iter Bytes Serde Sign
+  Mul PgrLoop Pow Gcd Roots Radix RadixText RadixKernels RadixApi.
 Open Scope Z_scope.
 
 (** Parameters of the owning areas (all source-extracted, see gen/Extracted.v). *)
 Record hist_params := mkHP {
   hp_as : addsub_params;
   hp_div : div_params;
-  hp_bits : bits_params
+  hp_bits : bits_params;
+  hp_mul : mul_params;
+  hp_pow : pow_params;
+  hp_gcd : gcd_params;
+  hp_roots : roots_params;
+  hp_radix : radix_params
 }.
+(** what the pow / gcd / roots models call for their big products and quotients *)
+Definition hp_bmul (P : hist_params) : list Z -> list Z -> outcome (list Z) := umul (hp_mul P).
+Definition hp_bdivrem (P : hist_params) : list Z -> list Z -> outcome (list Z * list Z) := udivrem (hp_div P).
 
 (** * Objects *)
 Inductive obj := OU (d : list Z) | OI (x : bigint).
@@ -88,7 +98,12 @@ Inductive op :=
 | ONeg | ONot | OAbs | OSignum                (* BigInt: x = -x, x = !x, x = x.abs(), x = x.signum() *)
 | ODivFloor (y : obj) | OModFloor (y : obj)   (* x = x.div_floor(&y) ... *)
 | ODivEuclid (y : obj) | ORemEuclid (y : obj)
-| ODivCeil (y : obj).
+| ODivCeil (y : obj)
+| OMul (y : obj)                              (* `*=` (impl_mul_assign!) *)
+| OMulS (t : swidth) (s : Z)                  (* BigUint *= u32 / u64 / u128 *)
+| OPow (e : Z)                                (* x = x.pow(e : u32) *)
+| OSqrt | OCbrt | ONthRoot (n : Z)            (* x = x.sqrt() / cbrt() / nth_root(n : u32) *)
+| OGcd (y : obj) | OLcm (y : obj).            (* x = x.gcd(&y) / x.lcm(&y) *)
 
 Definition prep_u (d : list Z) : list Z := biguint_from_vec d.
 Definition prep_i (x : bigint) : bigint := from_biguint (sg x) (biguint_from_vec (mag x)).
@@ -127,6 +142,15 @@ Definition ustep (P : hist_params) (a : list Z) (o : op) : outcome (list Z) :=
   | ODivEuclid (OU y) => udiv_euclid (hp_div P) a (prep_u y)
   | ORemEuclid (OU y) => urem_euclid (hp_div P) a (prep_u y)
   | ODivCeil (OU y) => udiv_ceil (hp_div P) a (prep_u y)
+  | OMul (OU y) => umul_assign (hp_mul P) a (prep_u y)
+  | OMulS S128 s => umul_u128 (hp_mul P) a s
+  | OMulS _ s => umul_digit a s
+  | OPow e => upow_prim (hp_bmul P) (hp_pow P) a e
+  | OSqrt => usqrt (hp_bdivrem P) (hp_as P) (hp_roots P) guess_nostd a
+  | OCbrt => ucbrt (hp_bmul P) (hp_bdivrem P) (hp_as P) (hp_roots P) guess_nostd a
+  | ONthRoot n => unth_root (hp_bmul P) (hp_bdivrem P) (hp_as P) (hp_pow P) (hp_roots P) guess_nostd a n
+  | OGcd (OU y) => ugcd (hp_as P) (hp_gcd P) a (prep_u y)
+  | OLcm (OU y) => ulcm (hp_bmul P) (hp_bdivrem P) (hp_as P) (hp_gcd P) a (prep_u y)
   | _ => ill
   end.
 
@@ -155,6 +179,13 @@ Definition istep (P : hist_params) (x : bigint) (o : op) : outcome bigint :=
   | ODivEuclid (OI y) => idiv_euclid (hp_div P) x (prep_i y)
   | ORemEuclid (OI y) => irem_euclid (hp_div P) x (prep_i y)
   | ODivCeil (OI y) => idiv_ceil (hp_div P) x (prep_i y)
+  | OMul (OI y) => imul_assign (hp_mul P) x (prep_i y)
+  | OPow e => ipow_prim (hp_bmul P) (hp_pow P) x e
+  | OSqrt => isqrt (hp_bdivrem P) (hp_as P) (hp_roots P) guess_nostd x
+  | OCbrt => icbrt (hp_bmul P) (hp_bdivrem P) (hp_as P) (hp_roots P) guess_nostd x
+  | ONthRoot n => inth_root (hp_bmul P) (hp_bdivrem P) (hp_as P) (hp_pow P) (hp_roots P) guess_nostd x n
+  | OGcd (OI y) => igcd (hp_as P) (hp_gcd P) x (prep_i y)
+  | OLcm (OI y) => ilcm (hp_bmul P) (hp_bdivrem P) (hp_as P) (hp_gcd P) x (prep_i y)
   | _ => ill
   end.
 
@@ -274,10 +305,13 @@ Definition hash_stream (s : obj) : outcome (list Z) :=
   match s with OU d => uhash d | OI x => ihash x end.
 
 (** * Exports as functions of the object: each is (sign word, payload). *)
-Inductive export := EU32 | EU64 | EBytesLe | EBytesBe | ESignedLe | ESignedBe | EBits | ECountOnes | ETrailingZeros.
+Inductive export := EU32 | EU64 | EBytesLe | EBytesBe | ESignedLe | ESignedBe | EBits | ECountOnes | ETrailingZeros
+                  | EText (radix : Z).           (* to_str_radix(radix): the bytes of the String *)
 
-Definition export_of (e : export) (s : obj) : outcome (list Z) :=
+Definition export_of (P : hist_params) (e : export) (s : obj) : outcome (list Z) :=
   match s, e with
+  | OU d, EText r => u_to_str_radix (hp_radix P) d r
+  | OI x, EText r => i_to_str_radix (hp_radix P) x r
   | OU d, EU32 => uto_u32_digits d
   | OU d, EU64 => Ret (uto_u64_digits d)
   | OU d, EBytesLe => uto_bytes_le d
@@ -296,14 +330,14 @@ Definition export_of (e : export) (s : obj) : outcome (list Z) :=
   | _, _ => ill
   end.
 
-Definition exports_u : list export := [EU32; EU64; EBytesLe; EBytesBe; EBits; ECountOnes; ETrailingZeros].
-Definition exports_i : list export := [EU32; EU64; EBytesLe; EBytesBe; ESignedLe; ESignedBe; EBits; ETrailingZeros].
+Definition exports_u : list export := [EU32; EU64; EBytesLe; EBytesBe; EBits; ECountOnes; ETrailingZeros; EText 10; EText 16].
+Definition exports_i : list export := [EU32; EU64; EBytesLe; EBytesBe; ESignedLe; ESignedBe; EBits; ETrailingZeros; EText 10; EText 16].
 Definition exports_for (s : obj) : list export := match s with OU _ => exports_u | OI _ => exports_i end.
 
-Fixpoint all_exports (es : list export) (s : obj) : outcome (list (list Z)) :=
+Fixpoint all_exports (P : hist_params) (es : list export) (s : obj) : outcome (list (list Z)) :=
   match es with
   | [] => Ret []
-  | e :: r => do x <- export_of e s; do xs <- all_exports r s; Ret (x :: xs)
+  | e :: r => do x <- export_of P e s; do xs <- all_exports P r s; Ret (x :: xs)
   end.
 
 Fixpoint lists_eqb (a b : list (list Z)) : list bool :=
@@ -330,13 +364,13 @@ Record pair_obs := mkPO {
   po_nosign_a : bool; po_nosign_b : bool
 }.
 
-Definition observe_pair (a b : obj) : outcome pair_obs :=
+Definition observe_pair (P : hist_params) (a b : obj) : outcome pair_obs :=
   do e <- oeq a b;
   do c <- ocmp a b;
   do ha <- hash_stream a;
   do hb <- hash_stream b;
-  do xa <- all_exports (exports_for a) a;
-  do xb <- all_exports (exports_for b) b;
+  do xa <- all_exports P (exports_for a) a;
+  do xb <- all_exports P (exports_for b) b;
   do mx <- omax a b; do emx <- oeq mx a;
   do mn <- omin a b; do emn <- oeq mn a;
   Ret (mkPO e c (list_eqb ha hb) (lists_eqb xa xb) emx emn (nosign_iff_zero_b a) (nosign_iff_zero_b b)).
